@@ -567,12 +567,20 @@ func GenTreeOpt(seed uint64, maxPkgs, maxFuncs int, allowDep bool) Tree {
 			fs[k].Name = fmt.Sprintf("Dep%s%d", fs[k].Name, k)
 		}
 		src := RenderFile("util", fs, true, false) + "\nfunc Twice(n int) int {\n\treturn n * 2\n}\n\nfunc Scale(n, k int) int {\n\tt := 0\n\tfor i := 0; i < k; i++ {\n\t\tt += n\n\t}\n\treturn t\n}\n"
-		// a deep import chain util -> c01 -> c02 -> ... -> c12 plus a shortcut
-		// util -> c11 (a diamond: c11 is reachable at depth 2 and at depth 12)
-		const chain = 12
-		imp := "import (\n\t\"example.test/dep/c01\"\n\t\"example.test/dep/c11\"\n)\n"
+		// a deep import chain util -> c01 -> c02 -> ... -> c16 plus shortcuts from
+		// util straight to several chain members (diamonds: each of those packages
+		// is reachable both by a short and by a long path, at many different depths)
+		const chain = 16
+		shortcuts := []int{1, 4, 7, 9, 10, 11, 12, 13, 15}
+		imp := "import (\n"
+		call := ""
+		for _, k := range shortcuts {
+			imp += fmt.Sprintf("\t\"example.test/dep/c%02d\"\n", k)
+			call += fmt.Sprintf(" + c%02d.Step(n)", k)
+		}
+		imp += ")\n"
 		i0 := strings.Index(src, "\n\n")
-		src = src[:i0] + "\n\n" + imp + src[i0:] + "\nfunc ChainSum(n int) int {\n\treturn c01.Step(n) + c11.Step(n)\n}\n"
+		src = src[:i0] + "\n\n" + imp + src[i0:] + "\nfunc ChainSum(n int) int {\n\treturn 0" + call + "\n}\n"
 		t.DepFiles = append(t.DepFiles, File{Rel: "util/util.go", Pkg: "util", Src: src, Funcs: fs})
 		for k := 1; k <= chain; k++ {
 			name := fmt.Sprintf("c%02d", k)
